@@ -39,6 +39,8 @@ TEXT = {
          "Names under which values are supplied are known by construction; 'both' must produce an error naming the field (innermost error text), otherwise the value lands in the field and nothing else changes. Struct-typed aliases duplicate the subtree; bounded shapes."),
  "C15": ("rapid round-trip and range properties over every scalar type, four collection kinds and integral slices (canonical text from the flag helpers' String()), structural integer literals (bases, '_', blanks), boundary literals judged with math/big; plus coverage-guided fuzzing of the same properties (rapid.MakeFuzz) in the thorough tier",
          "Pure functions: hundreds of thousands of generated values / literals per run; oracle is parse(canonical(v)) == v and big-integer / exact float range arithmetic independent of strconv's range handling."),
+ "C16": ("native go fuzz targets (coverage-guided, thorough tier) and their rapid twins (quick tier) for parse.String at 72 types, the splitters, the 8 case decoders, ParsingDuration, the four decoders on raw bytes, env values and flag argv; plus rapid type-side checks feeding valid input through env / flag / pflag / decoders / mangler chains into types whose leaves are user-defined named types, user pointers and embedded structs",
+         "In-target oracle: no panic, the call returns (20 s hang guard, 3 GiB heap watchdog), and on success the value has the requested type. Fuzzing cannot be pinned to a seed; saved failing inputs are the reproducible unit. One third-party finding (Cue evaluator memory blow-up) is listed as known and excluded by construction."),
  "C19": ("rapid property tests: decode(encode(ws)) == ws for six schemes; Go identifiers assembled from words and initialisms must split into the assembly list",
          "Cheap pure functions: hundreds of thousands of generated word lists / identifiers per run against a by-construction oracle."),
 }
